@@ -11,12 +11,12 @@ P = dict(
         dict(module="MC_C17", quick_cfg="MC_C02_line.cfg", workers=8, coverage=False),
         dict(module="MC_C17", quick_cfg="MC_C02_line_control.cfg", expect_violation=True, coverage=False, workers=4),
         # thick polylines: the transcribed scanline renderer (EGThick), one row per step; control = edges_bounding_box before D19
-        dict(module="MC_C02p", quick_cfg="MC_C02p.cfg", thorough_cfg="MC_C02p_thorough.cfg", workers=10, thorough_timeout=3000),
-        dict(module="MC_C02p", thorough_cfg="MC_C02p4.cfg", workers=10),
+        dict(module="MC_C02p", quick_cfg="MC_C02p.cfg", thorough_cfg="MC_C02p_thorough.cfg", workers=10, thorough_timeout=3000, coverage=False),
+        dict(module="MC_C02p", thorough_cfg="MC_C02p4.cfg", workers=10, coverage=False),
         dict(module="MC_C02p", quick_cfg="MC_C02p_control.cfg", expect_violation=True, coverage=False, workers=6),
         # centre-aligned thick triangle strokes with and without fill (EGThickTri), one row per step
-        dict(module="MC_C02t", quick_cfg="MC_C02t.cfg", thorough_cfg="MC_C02t_thorough.cfg", workers=10, thorough_timeout=3000),
-        dict(module="MC_C02t", thorough_cfg="MC_C02t_nofill.cfg", workers=10),
+        dict(module="MC_C02t", quick_cfg="MC_C02t.cfg", thorough_cfg="MC_C02t_thorough.cfg", workers=10, thorough_timeout=3000, coverage=False),
+        dict(module="MC_C02t", thorough_cfg="MC_C02t_nofill.cfg", workers=10, coverage=False),
         dict(module="MC_C02t", quick_cfg="MC_C02t_control.cfg", expect_violation=True, coverage=False, workers=6)],
     required_events=["draw"], drift_checked=True,
     level_text="MC_C02 steps the transcribed Text::draw / draw_string machine (shared with MC_C15) over abstract fonts whose "
